@@ -216,9 +216,7 @@ func (p *poller) readWrite(ev *syscall.Kevent_t) {
 				if c.onConnected == nil {
 					_ = c.flush()
 				} else {
-					c.onConnected(c, nil)
-					c.onConnected = nil
-					c.resetRead()
+					c.dialCompleted()
 				}
 			}
 		}
@@ -227,9 +225,7 @@ func (p *poller) readWrite(ev *syscall.Kevent_t) {
 			if c.onConnected == nil {
 				_ = c.flush()
 			} else {
-				c.resetRead()
-				c.onConnected(c, nil)
-				c.onConnected = nil
+				c.dialCompleted()
 			}
 		}
 	}
